@@ -254,6 +254,51 @@ fn check_loop(prop: Prop, tier: Tier, seed: u64) -> i32 {
     };
     let known = known_for::<looprun::LoopScn>(prop);
     let res = batch::run_batch::<looprun::LoopScn>(&cfg, &known);
+    // C04: failing allocations. A huge sample_count with a small max_time
+    // must still just stop at max_time when memory is limited.
+    let mut oom_extra = json!({});
+    if prop == Prop::C04 && matches!(res.end, BatchEnd::Clean) {
+        match oom_probes() {
+            Ok(n) => {
+                oom_extra = json!({ "allocation_failure_probes": { "scenarios": n, "address_space_limit_bytes": OOM_PROBE_LIMIT, "outcome": "all stopped at max_time" } });
+            }
+            Err((scn, msg)) => {
+                let dir = batch::verif_root().join("replays");
+                let _ = std::fs::create_dir_all(&dir);
+                let path = dir.join(format!("C04-{seed}-oom.json"));
+                let body = json!({
+                    "format": 1, "property": "C04", "engine": "dsim-oom",
+                    "violation": { "class": "abort_on_allocation_failure", "message": msg },
+                    "scenario": scn.to_json(),
+                    "faults": [{ "kind": "alloc_fail_large", "address_space_limit_bytes": OOM_PROBE_LIMIT }],
+                    "repo": batch::repo_describe(),
+                });
+                std::fs::write(&path, serde_json::to_string_pretty(&body).unwrap()).unwrap();
+                let mut agg = res.agg;
+                *agg.faults_fired.entry("alloc_fail_large".into()).or_insert(0) += 1;
+                batch::write_evidence(
+                    &EvidenceMeta {
+                        prop,
+                        tier,
+                        seed,
+                        level: "exploration",
+                        rule: "see the clean-run evidence; this run ended in the allocation-failure probe",
+                        assumptions: vec![],
+                        components_real: REAL_LOOP.to_vec(),
+                        components_stub: STUB_LOOP.to_vec(),
+                        extra: json!({}),
+                    },
+                    &agg,
+                    res.wall_s,
+                    1,
+                );
+                println!("class=abort_on_allocation_failure message={msg}");
+                println!("scenario={}", scn.to_json());
+                println!("VIOLATION property=C04 replay={}", path.display());
+                return 1;
+            }
+        }
+    }
     let meta = EvidenceMeta {
         prop,
         tier,
@@ -269,7 +314,7 @@ fn check_loop(prop: Prop, tier: Tier, seed: u64) -> i32 {
         ],
         components_real: REAL_LOOP.to_vec(),
         components_stub: STUB_LOOP.to_vec(),
-        extra: json!({}),
+        extra: oom_extra,
     };
     finish(prop, tier, seed, res, meta)
 }
@@ -418,6 +463,102 @@ fn cmd_selfcheck() -> i32 {
     0
 }
 
+/// Address-space limit under which the allocation-failure probes run.
+const OOM_PROBE_LIMIT: u64 = 6 << 30;
+
+/// Child side of the allocation-failure probe: runs one loop scenario under
+/// an address-space limit (failing allocations are a fault real deployments
+/// meet; an allocation failure aborts the process, so this runs in a child)
+/// and checks the C04 stop rule on it. Exit 0 held, 3 violated; a death by
+/// signal is judged by the parent.
+fn cmd_oom_probe(path: &Path) -> i32 {
+    let v = match batch::read_json(path) {
+        Ok(v) => v,
+        Err(e) => {
+            eprintln!("{e}");
+            return 2;
+        }
+    };
+    let Some(scn) = <looprun::LoopScn as Case>::from_json(&v["scenario"]) else {
+        eprintln!("cannot parse scenario");
+        return 2;
+    };
+    let lim = libc::rlimit { rlim_cur: OOM_PROBE_LIMIT, rlim_max: OOM_PROBE_LIMIT };
+    // SAFETY: plain syscall.
+    if unsafe { libc::setrlimit(libc::RLIMIT_AS, &lim) } != 0 {
+        eprintln!("setrlimit failed");
+        return 2;
+    }
+    let (r, out) = batch::one_run(&scn, 1, dsim::StrategySpec::RunToBlock);
+    let vs = scn.check(Prop::C04, &r, &out);
+    if let Some(v) = vs.first() {
+        println!("OOM-PROBE-VIOLATION class={} message={}", v.class, v.message);
+        return 3;
+    }
+    println!("OOM-PROBE-OK samples_stored={}", out.durations.len());
+    0
+}
+
+/// Parent side: a small fixed family of scenarios in which `sample_count` is
+/// huge and `max_time` is what bounds sampling. Returns the first failing
+/// scenario with what happened.
+fn oom_probes() -> Result<u64, (looprun::LoopScn, String)> {
+    use looprun::{Cost, Entry, LoopScn, Shape};
+    let mut n = 0;
+    for sample_count in [1_000_000_000u32, u32::MAX] {
+        for threads in [1usize, 2] {
+            for skip_ext in [None, Some(true)] {
+                let scn = LoopScn {
+                    entry: Entry::BenchValues,
+                    ishape: Shape::S,
+                    oshape: Shape::Z,
+                    sample_size: Some(1),
+                    sample_count: Some(sample_count),
+                    threads,
+                    skip_ext,
+                    cost_call: Cost::Const(1_000),
+                    cost_gen: Cost::Const(200),
+                    // About five rounds at 1 GHz.
+                    max_time: Some((0, 6_000)),
+                    ..LoopScn::default()
+                };
+                n += 1;
+                if let Err(msg) = run_oom_probe(&scn) {
+                    return Err((scn, msg));
+                }
+            }
+        }
+    }
+    Ok(n)
+}
+
+fn run_oom_probe(scn: &looprun::LoopScn) -> Result<(), String> {
+    let dir = batch::verif_root().join("target");
+    let _ = std::fs::create_dir_all(&dir);
+    let file = dir.join(format!("oom-probe-{}.json", std::process::id()));
+    std::fs::write(&file, json!({ "scenario": scn.to_json() }).to_string()).map_err(|e| e.to_string())?;
+    let exe = std::env::current_exe().map_err(|e| e.to_string())?;
+    let out = std::process::Command::new(exe)
+        .arg("oom-probe")
+        .arg(&file)
+        .env("VERIF_QUIET_PANICS", "1")
+        .output()
+        .map_err(|e| e.to_string())?;
+    let _ = std::fs::remove_file(&file);
+    let stdout = String::from_utf8_lossy(&out.stdout);
+    let stderr = String::from_utf8_lossy(&out.stderr);
+    match out.status.code() {
+        Some(0) => Ok(()),
+        Some(3) => Err(stdout.lines().find(|l| l.starts_with("OOM-PROBE-VIOLATION")).unwrap_or("violation").to_string()),
+        Some(c) => Err(format!("probe exited with status {c}: {}", stderr.lines().last().unwrap_or(""))),
+        None => Err(format!(
+            "under an address-space limit of {} GiB the run was killed by a signal instead of stopping at max_time: {}",
+            OOM_PROBE_LIMIT >> 30,
+            stderr.lines().rev().find(|l| l.contains("allocation")).or(stderr.lines().last()).unwrap_or("")
+        )),
+    }
+}
+
 fn cmd_replay(path: &Path) -> i32 {
     let v = match batch::read_json(path) {
         Ok(v) => v,
@@ -430,6 +571,23 @@ fn cmd_replay(path: &Path) -> i32 {
         eprintln!("replay file has no property");
         return 2;
     };
+    if v["engine"].as_str() == Some("dsim-oom") {
+        let Some(scn) = <looprun::LoopScn as Case>::from_json(&v["scenario"]) else {
+            eprintln!("cannot parse scenario");
+            return 2;
+        };
+        return match run_oom_probe(&scn) {
+            Ok(()) => {
+                println!("not reproduced: the run stopped at max_time under the address-space limit");
+                0
+            }
+            Err(msg) => {
+                println!("class=abort_on_allocation_failure message={msg}");
+                println!("VIOLATION property={prop} replay={}", path.display());
+                1
+            }
+        };
+    }
     let kind = v["scenario"]["kind"].as_str().unwrap_or("");
     let out = match kind {
         "pool" => batch::replay_case::<pool::PoolScn>(prop, &v),
@@ -486,6 +644,10 @@ fn main() {
             }
         }
         Some("selfcheck") => cmd_selfcheck(),
+        Some("oom-probe") => match args.get(2) {
+            Some(p) => cmd_oom_probe(Path::new(p)),
+            None => 2,
+        },
         Some("selftest-oracles") => selftest::run(),
         Some("replay") => match args.get(2) {
             Some(p) => cmd_replay(Path::new(p)),
